@@ -13,9 +13,9 @@ on, else its defaults, merged UNDER the namespace the sub-parser built; then the
 caller's setting).
 
 The namespace is modelled level by level (one `KV` per parser on the chosen path); the nesting `cfg[name] = sub`
-is the C11 algebra.  Outside: sections for a subcommand inside a config of an outer level, the subcommand
-environment variable, default config files of outer parsers seen by inner ones (all three: C17's subject and open
-findings there).
+is the C11 algebra.  Sections for a subcommand inside a config of an outer level and `parse_object` on the tree: last part of this
+file.  Outside: the subcommand environment variable, default config files of outer parsers seen by inner ones (C17's
+subject and open findings there).
 -/
 namespace Jap.Src
 open Jap.NS
@@ -139,6 +139,133 @@ def flagLevels : List Level → List Bool → List Level
   | L :: r, f :: fs => { L with p := withFlag L.p f } :: flagLevels r fs
   | L :: r, [] => L :: flagLevels r []
   | [], _ => []
+
+/-! ### sections for inner levels inside a config of an outer level (`--cfg '{"s1": {...}}'`, `parse_object` on a tree)
+
+The namespace of a level is kept in two parts: its own keys, and the section it holds for the next level of the path (what
+`_ActionSubCommands.__call__` hands to the sub-parser as `namespace=`, itself holding the sections of the deeper levels).
+`merge_config` of an outer parser treats the `key+` entries of a section with `_find_action(parser, "s1.l")` — the
+SUB-PARSER's action — and `action._check_type_(cfg[key], append=True, cfg=cfg)`, whose previous value is
+`cfg.get(action.dest)` with the sub-parser-relative dest, read in the OUTER namespace (open finding C04-subsection-append).
+Assumption (checked per case by the driver, `interleave`): a config does not hold `k+` for an own key and for a section key
+at once (their relative order in `cfg.keys()` depends on the storage order of the combined namespace), and the previous value of
+a section's `k+` is not read at a scalar-typed key of the outer parser (promotion of a foreign scalar depends on its adapting to the
+element type; atoms are opaque here). -/
+
+def nameKey (n : String) : SKey := ⟨false, n⟩
+
+/-- `_find_action(parser, key)` through the subcommands of the path: the action with ITS OWN (relative) dest -/
+def findArgT : List Level → Key → Option Arg
+  | [], _ => .none
+  | L :: rest, k =>
+    match findArg L.p k with
+    | some a => some a
+    | .none =>
+      match rest, k with
+      | L' :: _, s :: k' => if s.name = L'.name then findArgT rest k' else .none
+      | _, _ => .none
+
+/-- `_apply_actions` with an arbitrary "has an action" test (`expandV` is the instance `findArg p`) -/
+def expandVF (f : Key → Bool) : Nat → Key → V → V
+  | 0, _, v => v
+  | n+1, key, .dct sub =>
+    if f key then .dct sub
+    else .ns ((nsOfDict sub).map (fun kv => (kv.1, expandVF f n (key ++ [kv.1]) kv.2)))
+  | n+1, key, .ns sub =>
+    if f key then .ns sub
+    else .ns (sub.map (fun kv => (kv.1, expandVF f n (key ++ [kv.1]) kv.2)))
+  | _+1, _, v => v
+def expandF (f : Key → Bool) (t : KV) : KV := (nsOfDict t).map (fun kv => (kv.1, expandVF f 32 [kv.1] kv.2))
+
+/-- the keys of the level itself: everything but the section of the next level and the subcommand dest -/
+def ownPart (next : Option String) (e : KV) : KV :=
+  e.filter (fun kv => kv.1.name != "subcommand" && some kv.1.name != next)
+/-- the section of the next level -/
+def sectionPart (next : Option String) (e : KV) : KV :=
+  match next with
+  | some n => match lookup (nameKey n) e with
+    | some (.ns s) => s
+    | _ => []
+  | .none => []
+
+/-- one round of the outer parser's `apply_appends` for a `key+` of a section: the previous value is read at the action's
+    relative dest IN THE OUTER NAMESPACE `outer`, the result is stored at the full key -/
+def secAppendStep (below : List Level) (outer : KV) (pend : KV) (kv : Key × V) : KV :=
+  match findArgT below (base kv.1) with
+  | some a =>
+    if a.kind = .list then
+      match getK kv.1 pend with
+      | some v => delK kv.1 (setK (base kv.1) (appendVal (getK a.dest outer) v) pend)
+      | .none => pend
+    else pend
+  | .none => pend
+
+/-- the section part of `merge_config(cfg_from, cfg_to)` of an outer parser -/
+def secMerge (below : List Level) (outer : KV) (sec pend : KV) : KV :=
+  ((leaves (update sec pend)).filter (fun kv => isPlus kv.1)).foldl (secAppendStep below outer) (update sec pend)
+
+def nextName (below : List Level) : Option String := below.head?.map (·.name)
+
+/-- a loaded config as the level sees it -/
+def expandT (L : Level) (below : List Level) (t : KV) : KV := expandF (fun k => (findArgT (L :: below) k).isSome) t
+
+/-- a config given through the level's config argument: own keys merged into the own part, the section into the pending
+    section of the next level -/
+def cfgStepT (L : Level) (below : List Level) (dest : Key) (t : KV) (st : KV × KV) : KV × KV :=
+  let e := expandT L below t
+  let m := mergeConfig L.p (ownPart (nextName below) e) st.1
+  (setK dest (noteVal (getK dest m)) m, secMerge below m (sectionPart (nextName below) e) st.2)
+
+def argvStepT (L : Level) (below : List Level) (st : KV × KV) : Item → KV × KV
+  | .cfg k t => cfgStepT L below k t st
+  | it => (argvStep L.p st.1 it, st.2)
+
+/-- the flattening of a command line item as the level sees it: of a config, the level's own keys -/
+def asgItemT (L : Level) (below : List Level) : Item → List Assign
+  | .cfg k t => asgTree (ownPart (nextName below) (expandT L below t)) ++ [.note k]
+  | it => asgItem L.p it
+def asgArgvT (L : Level) (below : List Level) (argv : List Item) : List Assign := argv.flatMap (asgItemT L below)
+
+/-- `itemWf` with sections allowed in configs: the level's own part is what must be known to the level's parser -/
+def itemWfT (L : Level) (below : List Level) : Item → Bool
+  | .cfg k t => isDest L.p k && treeOk L.p (ownPart (nextName below) (expandT L below t))
+  | it => itemWf L.p it
+
+/-- a level's own `parse_args(arg_strings, namespace=inc, env=, defaults=)`: `cfg = merge_config(namespace, cfg)` over its base,
+    then its segment of the command line; returns (own keys, section for the next level) -/
+def ownParseT (c : Call) (L : Level) (below : List Level) (inc : KV) : KV × KV :=
+  L.src.argv.foldl (argvStepT L below)
+    (mergeConfig L.p (ownPart (nextName below) inc) (defaultsAndEnvironC L.p L.src c), sectionPart (nextName below) inc)
+
+def finalLevelT (c : Call) (ancEnv : List Bool) (L : Level) (below : List Level) (inc : KV) : KV :=
+  ancEnv.foldl (handleStep L c) (ownParseT c L below inc).1
+
+/-- `root.parse_args` along the path, sections included -/
+def parseLevelsT (c : Call) : List Bool → KV → List Level → List KV
+  | _, _, [] => []
+  | anc, inc, L :: rest =>
+    finalLevelT c anc L rest inc :: parseLevelsT c (envRead L.p c.envArg :: anc) (ownParseT c L rest inc).2 rest
+
+/-- `root.parse_object(tree)` / `parse_string` on a tree: the root merges the content over its base; `handle_subcommands` then
+    merges every section of the path over the sub-parser's `parse_env` / defaults — by the ROOT's environment setting -/
+def objectInner (c : Call) (envRoot : Bool) : KV → List Level → List KV
+  | _, [] => []
+  | inc, L :: rest =>
+    (match subNamespace L c envRoot with
+      | some s => mergeConfig L.p (ownPart (nextName rest) inc) s
+      | .none => ownPart (nextName rest) inc) :: objectInner c envRoot (sectionPart (nextName rest) inc) rest
+
+def parseObjectT (c : Call) (lv : List Level) (t : KV) : List KV :=
+  match lv with
+  | [] => []
+  | L :: rest =>
+    let e := expandT L rest t
+    let m := mergeConfig L.p (ownPart (nextName rest) e) (defaultsAndEnvironC L.p L.src c)
+    m :: objectInner c (envRead L.p c.envArg) (secMerge rest m (sectionPart (nextName rest) e) []) rest
+
+/-- whole history on one parser tree, sections included -/
+def parseTreeT (c : Call) (tree : PT) (path : List String) (lv : List Level) : List KV :=
+  parseLevelsT c [] [] (flagLevels lv (flagsOn path tree))
 
 /-- whole history on one parser tree: setter calls, then `root.parse_args` along `path` -/
 def parseTree (c : Call) (tree : PT) (path : List String) (lv : List Level) : List KV :=
